@@ -2,12 +2,17 @@
 from harness.race import RaceAdapter
 from lib import recipe
 
-INV = ['OutcomeStable', 'CallbacksOnce']
+INV = ['OutcomeStable', 'CallbacksOnce', 'PublishedBeforeCallback', 'SoftOnlyIfUnprocessed',
+       'SoftSignalMatchesCallback', 'MutexIsCallback']
 FIRST_WRITER_WINS = 'TRUE'         # what ApplyResult._set does on the tree (since the F9 repair)
 
 
-def run(ctx):
-    for label, writers in (('race-3', '{"result", "timeout", "lost"}'), ('race-rt', '{"result", "timeout"}')):
+def run(ctx, prop='C01'):
+    units = (('race-3', '{"result", "timeout", "lost"}'), ('race-rt', '{"result", "timeout"}'),
+             ('race-soft', '{"result", "soft"}'), ('race-4', '{"result", "timeout", "lost", "soft"}'))
+    if prop == 'C06':
+        units = units[2:]
+    for label, writers in units:
         c = dict(Writers=writers, FirstWriterWins=FIRST_WRITER_WINS)
         res = recipe.tlc_only(label, 'Race', constants=c, invariants=INV, emit=True, timeout=300, heap='1g')
         g = recipe.account(ctx, label, 'Race', c, res, emit=True)
